@@ -118,6 +118,8 @@ def replay(ctx: Ctx, driver: str, case: dict) -> Report:
         new = [e for e in ds.rec_space(t, [], [ev["other"]], [], rng) if e["ev"] == "eq"][0]
     elif ev["ev"] == "gym":
         new = [e for e in ds.rec_space(t, [], [], [], rng) if e["ev"] == "gym"][0]
+    elif ev["ev"] == "eq_near":
+        new = [e for e in ds.rec_space(t, [], [], [], rng) if e["ev"] == "eq_near"][0]
     elif ev["ev"] == "canonical":
         new = [e for e in ds.rec_space(t, [], [], [], rng) if e["ev"] == "canonical"][0]
     else:
